@@ -620,6 +620,118 @@ func checkC20(c *km.Ctx) {
 		r.Add("R-C20-4", km.FuncName(fn), "history kept under the user's own name", c.P.Pos(fn.Pos()), "each list is copied under the key it was stored under, unmodified", found, bad == "")
 	}
 	checkSaveScheduled(c)
+	checkEventsStamped(c)
+}
+
+// checkEventsStamped: retention drops entries by their creation time; an event filed without one (zero) is older
+// than any retention and vanishes at the next save or expiry. Every event handed to recordEvent is stamped with
+// the current time - by recordEvent itself, or by whoever built it.
+func checkEventsStamped(c *km.Ctx) {
+	re := c.MustFunc("R-C20-4", "eventmon/eventrecorder", "(*EventRecorder).recordEvent")
+	if re == nil {
+		return
+	}
+	rootOf := func(v ssa.Value) ssa.Value {
+		for {
+			switch x := v.(type) {
+			case *ssa.FieldAddr:
+				v = x.X
+				continue
+			case *ssa.UnOp:
+				// a pointer kept in a cell
+				if al, ok := x.X.(*ssa.Alloc); ok && x.Op == token.MUL {
+					if o := km.CellOrigin(al); o != nil && o != ssa.Value(al) {
+						v = km.Unwrap(o)
+						continue
+					}
+				}
+			}
+			return km.Unwrap(v)
+		}
+	}
+	isNow := func(v ssa.Value) bool {
+		v = km.Unwrap(v)
+		if cv, ok := v.(*ssa.Convert); ok {
+			v = km.Unwrap(cv.X)
+		}
+		return isNowUnix(v)
+	}
+	// stamped: f stores now() into the CreateTime of obj, or into a local record that is then copied whole into obj
+	stamped := func(f *ssa.Function, obj ssa.Value) bool {
+		obj = km.Unwrap(obj)
+		ok := false
+		km.Instrs(f, func(in ssa.Instruction) {
+			st, isSt := in.(*ssa.Store)
+			if !isSt {
+				return
+			}
+			fa, isFA := st.Addr.(*ssa.FieldAddr)
+			if !isFA || fieldNameOf(fa) != "CreateTime" || !isNow(st.Val) {
+				return
+			}
+			root := rootOf(fa)
+			if root == obj {
+				ok = true
+				return
+			}
+			// the local record is loaded and stored into a field of obj afterwards
+			if al, isAl := root.(*ssa.Alloc); isAl {
+				for _, ref := range *al.Referrers() {
+					if ld, isLd := ref.(*ssa.UnOp); isLd && ld.Op == token.MUL {
+						for _, r2 := range *ld.Referrers() {
+							if s2, isS2 := r2.(*ssa.Store); isS2 && s2.Val == ssa.Value(ld) && rootOf(s2.Addr) == obj && km.InstrDominates(st, s2) {
+								ok = true
+							}
+						}
+					}
+				}
+			}
+		})
+		return ok
+	}
+	evParam := km.ParamAt(re, 2)
+	if evParam != nil && stamped(re, evParam) {
+		c.R.Add("R-C20-4", km.FuncName(re), "every recorded event carries its creation time", c.P.Pos(re.Pos()), "CreateTime = now, set by recordEvent or by the builder of every event handed to it", "recordEvent stamps the event it is handed", true)
+		return
+	}
+	n := 0
+	for _, cs := range c.G.Callers[re] {
+		ci, ok := cs.Instr.(ssa.CallInstruction)
+		if !ok {
+			continue
+		}
+		n++
+		a := km.CallArgs(ci.Common())
+		good, how := false, "not stamped"
+		if len(a) > 2 && a[2] != nil {
+			ev := km.Unwrap(a[2])
+			if o := km.CellOrigin(ev); o != nil {
+				ev = km.Unwrap(o)
+			}
+			if stamped(cs.Caller, ev) {
+				good, how = true, "stamped by the caller"
+			} else if cl, isC := ev.(*ssa.Call); isC {
+				if g := km.StaticCallee(cl.Common()); g != nil && len(g.Blocks) > 0 && c.InModule(g) {
+					all, nRet := true, 0
+					km.Instrs(g, func(in ssa.Instruction) {
+						if ret, isRet := in.(*ssa.Return); isRet && len(ret.Results) > 0 {
+							nRet++
+							if !stamped(g, ret.Results[0]) {
+								all = false
+							}
+						}
+					})
+					if all && nRet > 0 {
+						good, how = true, "stamped by "+km.NameOf(g)
+					}
+				}
+			}
+		}
+		c.R.Add("R-C20-4", km.FuncName(cs.Caller), "every recorded event carries its creation time", posOf(c, cs.Instr), "CreateTime = now, set by recordEvent or by the builder of every event handed to it", how, good)
+	}
+	if n == 0 {
+		c.R.AnchorLost("R-C20-4", "callers of recordEvent")
+	}
 }
 
 func fnReachable(fn *ssa.Function, b *ssa.BasicBlock) bool {
